@@ -20,7 +20,7 @@ Definition is_nan (b : N) : bool :=
   ((b / 4503599627370496) mod 2048 =? 2047)%N && negb (b mod 4503599627370496 =? 0)%N.
 
 Definition dom_literal (l : literal) : bool :=
-  wf_literal l && match l with LFloat b => negb (is_nan b) | _ => true end.
+  wf_literal l && match l with LFloat b => (b <? 18446744073709551616)%N && negb (is_nan b) | _ => true end.
 
 Definition dom_object (o : object) : bool :=
   match o with
